@@ -67,7 +67,13 @@ def _build(d, maxlen):
     def pos():
         if L > 100 and d.pick(2):
             return d.choice([L - 1, L, L + 1, 255, 256, L // 2])
-        return d.int(-2, L + 3)
+        p_ = d.int(-2, L + 3)
+        if d.chance(1, 6):
+            # a FRACTIONAL position / count: truncated toward zero first
+            # (0.5 is 0, 1.9 is 1)
+            f_ = d.choice([0.25, 0.5, 0.9])
+            return p_ + f_ if p_ >= 0 else p_ - f_
+        return p_
     if d.chance(1, 12):
         s = d.choice([12345, 7, 100, 1212, -45, 7.0, 2.5, -0.5, 100.0,
                       1212.0, 1234567.0, 1000000.0, 123456789012.0, -0.0,
@@ -160,6 +166,18 @@ def enumerate_cases(tier, shard=0, nshards=1):
         texts += [''.join(t) for t in itertools.product('aA ', repeat=n)]
     rng = range(-1, 5)
     i = 0
+    for s in ['abcdef', 'a']:
+        i += 1
+        if i % nshards != shard:
+            continue
+        for p_ in (-1.5, -0.5, 0.25, 0.5, 0.9, 1.5, 1.9, 2.5, 6.5, 7.2):
+            for k_ in (2, 0.5, 1.9):
+                yield {'fn': 'MID', 'args': [s, p_, k_], 'mode': 'call'}
+                yield {'fn': 'REPLACE', 'args': [s, p_, k_, 'X'],
+                       'mode': 'formula'}
+            yield {'fn': 'LEFT', 'args': [s, p_], 'mode': 'call'}
+            yield {'fn': 'RIGHT', 'args': [s, p_], 'mode': 'formula'}
+            yield {'fn': 'FIND', 'args': ['a', s, p_], 'mode': 'call'}
     for s in texts:
         i += 1
         if i % nshards != shard:
@@ -293,7 +311,11 @@ def judge(case):
         if not _same_cat(_tag(exp), obs, args):
             res.fail('value:&', _tag(exp), obs, f)
         return res
-    exp = _tag(RT.FUNCS[fn](*args))
+    posidx = {'LEFT': (1,), 'RIGHT': (1,), 'MID': (1, 2), 'FIND': (2,),
+              'REPLACE': (1, 2)}.get(fn, ())
+    refargs = [int(a) if i in posidx and isinstance(a, float) else a
+               for i, a in enumerate(args)]
+    exp = _tag(RT.FUNCS[fn](*refargs))
     if mode == 'call':
         obs = lib.call_fn(fn, *args)
         note = None
